@@ -1,5 +1,7 @@
 CONSTANTS
   MaxLen = 1
+  RandN = 1
+  RandLen = 1
 SPECIFICATION Spec2
 INVARIANTS Mon_EmittedSafe
 POSTCONDITION TraceAccepted
